@@ -325,7 +325,7 @@ struct WOut {
     cur: (usize, usize),
 }
 
-fn run_program(defs: &Defs, len: usize, shape: Shape, ops: &[Value], merged: bool) -> WOut {
+fn run_program(defs: &Defs, len: usize, shape: Shape, ops: &[Value], mode: u8) -> WOut {
     let mut data = canvas(len);
     let mut flags = vec![];
     let cur;
@@ -344,6 +344,10 @@ fn run_program(defs: &Defs, len: usize, shape: Shape, ops: &[Value], merged: boo
                     w.set_wraps(op["b"].as_bool().unwrap_or(true));
                     flags.push(true)
                 }
+                "cursor" => {
+                    w.set_cursor(Position::new(op["r"].as_u64().unwrap_or(0) as usize, op["c"].as_u64().unwrap_or(0) as usize));
+                    flags.push(true)
+                }
                 "fmt" => {
                     // put_fmt: optional face for the duration of the call, text through utf8_writer()
                     let text: String = vusizes(&op["s"]).iter().filter_map(|c| char::from_u32(*c as u32)).collect();
@@ -353,8 +357,10 @@ fn run_program(defs: &Defs, len: usize, shape: Shape, ops: &[Value], merged: boo
                 }
                 "write" => {
                     let mut chunks: Vec<Vec<u8>> = op["chunks"].as_array().map(|a| a.iter().map(vbytes).collect()).unwrap_or_default();
-                    if merged {
+                    if mode == 1 {
                         chunks = vec![chunks.concat()];
+                    } else if mode == 2 {
+                        chunks = chunks.concat().iter().map(|b| vec![*b]).collect();
                     }
                     let via_utf8 = op["via"].as_str() == Some("utf8");
                     let mut ok = true;
@@ -411,6 +417,7 @@ fn op_coq(defs: &Defs, op: &Value) -> String {
         "cell" => format!("(OCell {})", defs.cell_coq(&defs.cell_from(op))),
         "face" => format!("(OFace {})", face_coq(&face_from(&op["face"]))),
         "wraps" => format!("(OWraps {})", cbool(op["b"].as_bool().unwrap_or(true))),
+        "cursor" => format!("(OCursor {} {})", cnat(op["r"].as_u64().unwrap_or(0) as usize), cnat(op["c"].as_u64().unwrap_or(0) as usize)),
         "write" => {
             let chunks = clist(op["chunks"].as_array().map(|a| a.iter().map(|c| cbytes(&vbytes(c))).collect::<Vec<_>>()).unwrap_or_default());
             if op["via"].as_str() == Some("tty") {
@@ -594,11 +601,6 @@ fn run_w(input: &Value) -> Case {
         .flat_map(|o| o["chunks"].as_array().map(|a| a.iter().flat_map(vbytes).collect::<Vec<u8>>()).unwrap_or_default())
         .collect();
     decode_lenient(&own_bytes, &mut chars);
-    let unsafe_stream = chars.iter().any(|c| char::from_u32(*c).is_none());
-    if unsafe_stream {
-        // recorded as skipped: the empty program is run instead
-        ops.clear();
-    }
     {
         let mut cur = json!({"fg": null, "bg": null, "attrs": 0});
         for o in ops.iter_mut() {
@@ -610,12 +612,13 @@ fn run_w(input: &Value) -> Case {
             }
         }
     }
-    let (r1, r2) = {
+    let (r1, r2, r3) = {
         let d = &defs;
         let o = &ops;
         (
-            catch(std::panic::AssertUnwindSafe(|| run_program(d, len, shape, o, false))),
-            catch(std::panic::AssertUnwindSafe(|| run_program(d, len, shape, o, true))),
+            catch(std::panic::AssertUnwindSafe(|| run_program(d, len, shape, o, 0))),
+            catch(std::panic::AssertUnwindSafe(|| run_program(d, len, shape, o, 1))),
+            catch(std::panic::AssertUnwindSafe(|| run_program(d, len, shape, o, 2))),
         )
     };
     let head = format!(
@@ -647,9 +650,6 @@ fn run_w(input: &Value) -> Case {
         Some(o) => json!({"canvas": o.canvas, "flags": o.flags, "cursor": [o.cur.0, o.cur.1], "shape": [shape.start, shape.end, shape.width, shape.height, shape.row_stride, shape.col_stride]}),
         None => json!("panic"),
     };
-    if unsafe_stream {
-        j["skipped"] = json!("stream decodes to an invalid scalar value (C02); empty program run instead");
-    }
     let multi = ops.iter().any(|o| o["o"] == "write" && o["chunks"].as_array().map(|a| a.len() >= 2).unwrap_or(false));
     let special = chars.iter().any(|c| {
         *c == 9 || *c == 10 || char::from_u32(*c).map(|ch| Cell::new_char(Face::default(), ch).size(&defs.ctx).width != 1).unwrap_or(false)
@@ -663,7 +663,7 @@ fn run_w(input: &Value) -> Case {
         format!("tty={}", ops.iter().any(|o| o["via"].as_str() == Some("tty"))),
         format!("glyphs={}", input["glyphs"].as_bool().unwrap_or(true)),
     ];
-    Case { coq: format!("{} {} {}", head, res(&r1), res(&r2)), json: j, tags, nontrivial: area >= 2 && area < len && (multi || special) && !unsafe_stream }
+    Case { coq: format!("{} {} {} {}", head, res(&r1), res(&r2), res(&r3)), json: j, tags, nontrivial: area >= 2 && area < len && (multi || special) }
 }
 
 // ---------- text layout + render ----------
@@ -885,7 +885,10 @@ fn gen_tty_bytes(rng: &mut Rng, maxitems: usize) -> Vec<u8> {
                     _ => b.extend(b"\x1b[3"),
                 }
             }
-            _ => b.push(*rng.pick(&[0x80u8, 0xFF, 0xC3])),
+            _ => match rng.below(3) {
+                0 => b.extend(*rng.pick(&[&[0xEDu8, 0xA0, 0x80][..], &[0xF4, 0x90, 0x80, 0x80], &[0xF7, 0xBF, 0xBF, 0xBF]])),
+                _ => b.push(*rng.pick(&[0x80u8, 0xFF, 0xC3])),
+            },
         }
     }
     b
@@ -927,9 +930,16 @@ fn gen_bytes(rng: &mut Rng, maxchars: usize) -> Vec<u8> {
     if rng.chance(1, 6) && !b.is_empty() {
         // malformed: a stray continuation / invalid lead byte, or a truncated sequence
         let at = rng.below(b.len() as u64 + 1) as usize;
-        match rng.below(3) {
+        match rng.below(5) {
             0 => b.insert(at, *rng.pick(&[0x80u8, 0xBF, 0xFF, 0xF8])),
             1 => b.insert(at, 0xE2),
+            2 | 3 => {
+                // well-shaped sequences that are not scalar values: surrogates, above U+10FFFF
+                let seq: &[u8] = *rng.pick(&[&[0xEDu8, 0xA0, 0x80][..], &[0xED, 0xBF, 0xBF], &[0xF4, 0x90, 0x80, 0x80], &[0xF7, 0xBF, 0xBF, 0xBF]]);
+                for (k, x) in seq.iter().enumerate() {
+                    b.insert(at + k, *x);
+                }
+            }
             _ => {
                 b.truncate(at.max(1));
             }
@@ -1031,6 +1041,9 @@ fn gen_w(rng: &mut Rng, v: &mut Vec<Value>) {
     }
     let nops = 1 + rng.below(8) as usize;
     let mut ops = vec![];
+    if rng.chance(1, 4) {
+        ops.push(json!({"o": "wraps", "b": false}));
+    }
     for _ in 0..nops {
         ops.push(match rng.below(12) {
             0..=2 => json!({"o": "char", "c": gen_char(rng, true)}),
@@ -1046,6 +1059,7 @@ fn gen_w(rng: &mut Rng, v: &mut Vec<Value>) {
                 json!({"o": "fmt", "s": chars, "face": if rng.chance(1, 2) { gen_face(rng) } else { Value::Null }})
             }
             7 => json!({"o": "wraps", "b": rng.chance(1, 2)}),
+            9 if rng.chance(1, 2) => json!({"o": "cursor", "r": rng.below(5), "c": rng.below(7)}),
             _ if tty_case && rng.chance(2, 3) => {
                 let b = gen_tty_bytes(rng, 6);
                 let chunks = random_cuts(rng, &b);
